@@ -147,7 +147,7 @@ def run(ctx):
     for name, spec in _directed(rng):
         ctx.case(("directed", name), spec)
         judge(ctx, spec)
-    for _ in range(ctx.scale(220, 1500)):
+    for _ in range(ctx.scale(500, 1500)):
         spec = E.random_case(rng, "sound_event_detection", n_clips=rng.choice([1, 1, 2, 3, 4]))
         both = any(c["only"] == "both" and any(e["kind"] == "ann" for e in c["events"]) and any(e["kind"] == "pred" for e in c["events"]) for c in spec["clips"])
         geomless = any(e.get("geom") is None for c in spec["clips"] for e in c["events"])
